@@ -190,7 +190,7 @@ pub fn run(ctx: &Ctx) -> (Report, Vec<ErrObs>) {
     let u = universe();
     rep.count_n("matrix:types", u.len() as u64);
     // quick: the diagonal, scalar x scalar, every pair with Data on one side, and containers with the
-    // same head over the core element types; thorough: the full matrix
+    // same head over the core element types; thorough: see `related` below (a quarter of the full matrix)
     let core = ["int", "data", "bool", "bytes", "wrap"];
     let mut pairs: Vec<(usize, usize)> = vec![];
     for i in 0..u.len() {
@@ -203,7 +203,12 @@ pub fn run(ctx: &Ctx) -> (Report, Vec<ErrObs>) {
                 || a.short == "data"
                 || b.short == "data"
                 || (a.elem.is_some() && b.elem.is_some() && head(a) == head(b) && elem_core(a) && elem_core(b));
-            if ctx.thorough || keep {
+            // thorough: additionally every pair involving a scalar, and containers sharing the head or the element
+            let related = a.elem.is_none()
+                || b.elem.is_none()
+                || head(a) == head(b)
+                || a.elem.as_ref().map(|e| e.short.clone()) == b.elem.as_ref().map(|e| e.short.clone());
+            if keep || (ctx.thorough && related) {
                 pairs.push((i, j));
             }
         }
